@@ -12,7 +12,7 @@ for d in sorted(glob.glob("/verif/seeded/*/meta.json")):
         rep = (v["report"][1] if len(v["report"]) > 1 else v["report"][0]).strip()[:150]
     note = m.get("superseded_note") or m.get("note") or ""
     extra = ""
-    if not m.get("confirmed"):
+    if not m.get("confirmed") or (not det and note):
         extra = " - " + (note[:260] + "..." if len(note) > 260 else note)
     if m.get("evaluated_after_strengthening"):
         extra += " (evaluated after the generators were widened" + (": " + m["strengthening_note"] if m.get("strengthening_note") else "") + ")"
